@@ -197,12 +197,26 @@ impl<W: 'static, R: 'static, T: 'static> XGenerator<W, R, T> {
                 })
             }),
             Self::Slice(gen, start, end) => either_g({
-                let inner: BIter<_, _, _> = Box::new(to_native!(gen, Self)._iter(ns, rt));
+                let inner: BIter<_, _, _> = Box::new(to_native!(gen, Self)._iter(ns, rt.clone()));
+                // skipping is work: every skipped element draws on the search budget, and a violation met while
+                // skipping is passed on instead of being skipped
+                let mut to_skip = *start;
+                let mut budget = rt.limits.search_iter();
+                let skipped = inner.filter_map(move |i| {
+                    if to_skip == 0 || i.is_err() {
+                        return Some(i);
+                    }
+                    if let Some(Err(violation)) = budget.next() {
+                        return Some(Err(violation));
+                    }
+                    to_skip -= 1;
+                    None
+                });
                 if let Some(end) = end {
                     // `end` is an index into the sliced generator, not a count
-                    Either::Left(inner.skip(*start).take(end.saturating_sub(*start)))
+                    Either::Left(skipped.take(end.saturating_sub(*start)))
                 } else {
-                    Either::Right(inner.skip(*start))
+                    Either::Right(skipped)
                 }
             }),
             Self::Filter(gen, func) => either_h({
